@@ -43,7 +43,7 @@ static SPECS: &[PropertySpec] = &[
         id: "C01",
         scenario: props::c01::scenario,
         level: "exploration",
-        rule: "plans drawn from a seeded tape: framing x payload class x chunking x chunk-size spelling x trailing garbage x segmentation (uniform, 1-byte drip, targeted cuts inside CRLF/size line/head-body boundary) x caller read schedule (read sizes, or one of the helpers bytes / write_to / text / text_utf8 / json / json_utf8, or text_reader with a size schedule) x EINTR/coalescing x {plain connection, TLS session (one plan in eight; both back ends)}; distinct = distinct plan-shape string (framing, size class, chunk-count class, >64KiB chunk, segmentation class, read class, garbage, eintr, coalesce); non-trivial = more than one delivery segment or a transport fault armed",
+        rule: "plans drawn from a seeded tape: framing x payload class x chunking x chunk-size spelling x trailing garbage x segmentation (uniform, 1-byte drip, targeted cuts inside CRLF/size line/head-body boundary) x caller read schedule (read sizes, or one of the helpers bytes / write_to / text / text_utf8 / json / json_utf8, or text_reader with a size schedule) x std::io::Read entry point (read, read_vectored with two slices, take(n).read_to_end) x write_to into a writer that takes short writes / is interrupted x EINTR/coalescing x {plain connection, TLS session (one plan in eight; both back ends)} x {alone, after another exchange on the same caller thread that was dropped in mid-body}; distinct = distinct plan-shape string (framing, size class, chunk-count class, >64KiB chunk, segmentation class, read class, garbage, eintr, coalesce); non-trivial = more than one delivery segment or a transport fault armed",
         quick_runs: 30000,
         matrix_cells: 0,
         thorough_runs: 50_000_000,
@@ -55,7 +55,7 @@ static SPECS: &[PropertySpec] = &[
         id: "C02",
         scenario: props::c02::scenario,
         level: "exploration",
-        rule: "a C01 plan plus exactly one damage: cut+FIN or cut+RST at an offset (targets: inside head, size line, between CR and LF, inside chunk data, before/inside the final 0 CRLF CRLF, one byte before the Content-Length end, uniform), silence longer than the read timeout followed by the rest of the bytes, or one corrupted chunk-framing byte; then 0..4 further caller reads after the first error; ground truth = lenient reference decoder on the delivered wire; distinct = plan-shape string incl. damage kind; every run is non-trivial (one fault by construction)",
+        rule: "a C01 plan plus exactly one damage: cut+FIN or cut+RST at an offset (targets: inside head, size line, between CR and LF, inside chunk data, before/inside the final 0 CRLF CRLF, one byte before the Content-Length end, uniform), silence longer than the read timeout followed by the rest of the bytes, or one corrupted chunk-framing byte; then 0..4 further caller reads after the first error; one run in six applies the same damage to a gzip- or deflate-coded body (nothing but a prefix of the decoded payload, a clean end only when the frame around the coded stream is complete); one in ten lays the chunk data out for a desynchronised reader (read timeout inside a size line of several digits, data that continues with a line break and a size line where a reader that lost the leading digits would land, 2..6 re-reads); ground truth = lenient reference decoder on the delivered wire; distinct = plan-shape string incl. damage kind; every run is non-trivial (one fault by construction)",
         quick_runs: 40000,
         matrix_cells: 0,
         thorough_runs: 50_000_000,
@@ -67,7 +67,7 @@ static SPECS: &[PropertySpec] = &[
         id: "C03",
         scenario: props::c03::scenario,
         level: "exploration",
-        rule: "method x status x Content-Length field list (0..3 copies; equal/different; valid, negative, empty, non-numeric, >2^64, '+n', list-valued) x Transfer-Encoding list (absent, chunked in any case, 'identity, chunked', split over two fields) x trailing bytes x peer closes|stays silent x segmentation x bytes()/read(); expected outcome from the RFC 9112 6.3 decision table (empty without waiting / payload / must fail / not decided); distinct = (method, status, CL shape, TE, end, expectation, reader, segmentation class); non-trivial = the table decides the combination",
+        rule: "method x status x Content-Length field list (0..3 copies; equal/different; valid, negative, empty, non-numeric, >2^64, '+n', list-valued) x Transfer-Encoding list (absent, chunked in any case, 'identity, chunked', split over two fields; next to chunked also a well-formed Content-Length of another size: half, zero, larger) x trailing bytes x peer closes|stays silent x segmentation x bytes()/read(); expected outcome from the RFC 9112 6.3 decision table (empty without waiting / payload / must fail / not decided); distinct = (method, status, CL shape, TE, end, expectation, reader, segmentation class); non-trivial = the table decides the combination",
         quick_runs: 40000,
         matrix_cells: 0,
         thorough_runs: 50_000_000,
@@ -79,7 +79,7 @@ static SPECS: &[PropertySpec] = &[
         id: "C04",
         scenario: props::c04::scenario,
         level: "exploration",
-        rule: "generated heads: status 100..999, any reason phrase / version token, 0..max_headers+1 fields (max_headers itself drawn: 0, 1, small, medium, default; exactly-at-limit and limit+1 targeted), names over the token alphabet in random case with duplicates, values over VCHAR/SP/HTAB/obs-text/empty with surrounding spaces and bare-LF continuations, heads larger than the 8 KiB buffer, single lines up to 15 KB; every segmentation class applied to the head; distinct = (status class, version, field-count class, limit class, big, TE, segmentation, accessor); non-trivial = at least one field",
+        rule: "generated heads: status 100..999, any reason phrase / version token, 0..max_headers+1 fields (max_headers itself drawn: 0, 1, small, medium, default; exactly-at-limit and limit+1 targeted), names over the token alphabet in random case with duplicates, values over VCHAR/SP/HTAB/obs-text/empty with surrounding spaces and bare-LF continuations, heads larger than the 8 KiB buffer, single lines up to 15 KB; every segmentation class applied to the head; one run in twelve: the caller announces Expect: 100-continue and the peer answers the request head with an interim 100 head followed by the final head under every segmentation (the reported head must be one of the two heads sent); distinct = (status class, version, field-count class, limit class, big, TE, segmentation, accessor); non-trivial = at least one field",
         quick_runs: 30000,
         matrix_cells: 0,
         thorough_runs: 50_000_000,
@@ -91,7 +91,7 @@ static SPECS: &[PropertySpec] = &[
         id: "C05",
         scenario: props::c05::scenario,
         level: "exploration",
-        rule: "three generators feeding the response read path: (a) strings of up to 14 items over {digits, hex letters, ';', ':', SP, CR, LF, '+', '-', other, CRLF, status line} as the whole response or as a chunked body; (b) 1..4 mutations (bit flip, deletion, duplication, numeric blow-up to 2^31/2^32/2^63/2^64-1/2^64, splice, truncation) of a valid response; (c) 'endless' streams (0.5-2 MiB) for a status line without end, a header line without end, header fields without end, bare-LF continuation without end, a chunk-size line without end, and a gzip bomb; random segmentation, FIN/RST/stall endings, EINTR, 0..4 re-reads after errors; oracles: no panic, termination (event cap, deadlock detection, real-time hang monitor), bounded bytes pulled from the transport per construct, allocation monitor (largest request, peak live, hard cap 1 GiB); distinct = (generator kind, method, ending, segmentation, reread, read size, eintr); every run non-trivial",
+        rule: "three generators feeding the response read path: (a) strings of up to 14 items over {digits, hex letters, ';', ':', SP, CR, LF, '+', '-', other, CRLF, status line} as the whole response or as a chunked body; (b) 1..4 mutations (bit flip, deletion, duplication, numeric blow-up to 2^31/2^32/2^63/2^64-1/2^64, splice, truncation) of a valid response; (c) 'endless' streams (0.5-2 MiB) for a status line without end, a header line without end, header fields without end (distinct names, one name repeated, names that are not tokens), bare-LF continuation without end, a chunk-size line without end, and a gzip bomb; random segmentation, FIN/RST/stall endings, EINTR, 0..4 re-reads after errors; oracles: no panic, termination (event cap, deadlock detection, real-time hang monitor), bounded bytes pulled from the transport per construct, allocation monitor (largest request, peak live, hard cap 1 GiB); distinct = (generator kind, method, ending, segmentation, reread, read size, eintr); every run non-trivial",
         quick_runs: 12000,
         matrix_cells: 0,
         thorough_runs: 50_000_000,
@@ -127,7 +127,7 @@ static SPECS: &[PropertySpec] = &[
         id: "C08",
         scenario: props::c08::scenario,
         level: "exploration",
-        rule: "URLs: http/https x domain (also upper-case) / IPv4 / IPv6 host x default (implicit or explicit) / non-default port x empty/plain/percent-encoded/non-ASCII path x query forms x fragment x userinfo; world: no proxy / http proxy / https proxy (with or without proxy credentials), giving direct, forward-proxy (absolute-form, also inside TLS to an https proxy) and CONNECT-tunnel routes with TLS peers so that the inner request is observed in clear; observed: address handed to connect, request target, Host; distinct = (route, host form, port class, path/query/fragment/userinfo classes, proxy credentials); all runs non-trivial",
+        rule: "URLs: http/https x domain (also upper-case) / IPv4 / IPv6 host x default (implicit or explicit) / non-default port x empty/plain/percent-encoded/non-ASCII path x query forms x fragment x userinfo; world: no proxy / http proxy / https proxy (with or without proxy credentials), giving direct, forward-proxy (absolute-form, also inside TLS to an https proxy) and CONNECT-tunnel routes with TLS peers so that the inner request is observed in clear; one proxied run in eight: the selected proxy refuses the connection (the request fails, nothing else is dialled); observed: address handed to connect, request target, Host; distinct = (route, host form, port class, path/query/fragment/userinfo classes, proxy credentials); all runs non-trivial",
         quick_runs: 10000,
         matrix_cells: 0,
         thorough_runs: 50_000_000,
@@ -139,7 +139,7 @@ static SPECS: &[PropertySpec] = &[
         id: "C09",
         scenario: props::c09::scenario,
         level: "exploration",
-        rule: "redirect graphs over 3 hosts x 2 ports: chains of length 0..max+2 and cycles over followed statuses 301/302/303/307/308 with Location forms absolute, scheme-relative, absolute-path, relative-path with dot segments, query-only, with fragment, fragment-only, empty, upper-case scheme/host; terminals 2xx/4xx/5xx, unfollowed 3xx (300/304/305/306/399), missing / unparsable / non-http Location; max_redirections 0..6 or default; follow on/off; the recorded connection history is compared with a reference interpreter whose hop URLs come from an independent RFC 3986 section 5.2 resolver; distinct = (form list, statuses, max, follow); non-trivial = at least one hop",
+        rule: "redirect graphs over 3 hosts x 2 ports: chains of length 0..max+2 and cycles over followed statuses 301/302/303/307/308 with Location forms absolute, scheme-relative, absolute-path, relative-path with dot segments, query-only, with fragment, fragment-only, empty, upper-case scheme/host; terminals 2xx/4xx/5xx, unfollowed 3xx (300/304/305/306/399), missing / unparsable / non-http Location (also with ports where a server listens: ftp://host:8080, ws://, gopher://host:80, wss://); max_redirections 0..6, default or at a numeric extreme; follow on/off; the two settings made by drawn setter programs (either order, overwritten values, on the session or the request, request overriding session); no connection attempt outside the reference chain; the recorded connection history is compared with a reference interpreter whose hop URLs come from an independent RFC 3986 section 5.2 resolver; distinct = (form list, statuses, max, follow); non-trivial = at least one hop",
         quick_runs: 30000,
         matrix_cells: 0,
         thorough_runs: 50_000_000,
@@ -187,7 +187,7 @@ static SPECS: &[PropertySpec] = &[
         id: "C13",
         scenario: props::c13::scenario,
         level: "exploration",
-        rule: "families: no-false-timeout (complete response, reads after end-of-body, zero-length reads, think time, early drop), stall and byte-drip at a drawn phase (before status line, inside head, between head and body, inside chunk / body), slow redirect chains, peer not reading the upload; T and R drawn per run (T only, R only, both); caller + watchdog threads interleaved by the seeded scheduler at every socket/channel/spawn/drop primitive; distinct = plan shape x schedule signature; all runs non-trivial",
+        rule: "families: no-false-timeout (complete response, reads after end-of-body, zero-length reads, think time, early drop), stall and byte-drip at a drawn phase (before status line, inside head, between head and body, inside chunk / body), slow redirect chains, peer not reading the upload; T and R drawn per run (T only, R only, both); the response dropped early while the peer is stalled, and the simulated time the drop itself takes (zero); caller + watchdog threads interleaved by the seeded scheduler at every socket/channel/spawn/drop primitive; distinct = plan shape x schedule signature; all runs non-trivial",
         quick_runs: 20000,
         matrix_cells: 0,
         thorough_runs: 50_000_000,
@@ -235,7 +235,7 @@ static SPECS: &[PropertySpec] = &[
         id: "C17",
         scenario: props::c17::scenario,
         level: "exploration",
-        rule: "resolver output: 0..3 IPv6 and 0..3 IPv4 addresses in a drawn interleaving; each address accepts / refuses after a latency around 0, just below/above the 200 ms race interval and around the connect timeout, or black-holes; connect timeout and overall deadline (none, zero, shorter than the race, long) drawn; racing threads interleaved by the seeded scheduler; distinct = (address behaviour list, connect timeout, deadline) x schedule signature; non-trivial = at least two addresses (the racing path)",
+        rule: "resolver output: 0..3 IPv6 and 0..3 IPv4 addresses in a drawn interleaving; each address accepts / refuses after a latency around 0, just below/above the 200 ms race interval and around the connect timeout, or black-holes; connect timeout and overall deadline (none, zero, shorter than the race, long) drawn; one run in eight: a second connection inside the same send() after a redirect to the same host, with the address that answered the first hop gone (black hole / refusing) - order again and an accepting address reached within position x 200 ms + its latency; racing threads interleaved by the seeded scheduler; distinct = (address behaviour list, connect timeout, deadline) x schedule signature; non-trivial = at least two addresses (the racing path)",
         quick_runs: 15000,
         matrix_cells: 0,
         thorough_runs: 50_000_000,
@@ -259,7 +259,7 @@ static SPECS: &[PropertySpec] = &[
         id: "C19",
         scenario: props::c19::scenario,
         level: "exploration",
-        rule: "reads through Response::read, text_reader() or write_to() (timestamping writer), over a plain connection or inside a TLS session (one plan in four; both back ends); uncompressed C01 plans whose peer goes silent forever (connection open) after a drawn prefix: after the blank line, after a complete chunk, inside a chunk, at the frame end, uniform; prefix delivered under a drawn segmentation with segments spread over simulated time; caller reads with buffers 1 B .. 1 MiB; read timeout 1 h so any wrong wait is visible as simulated time; distinct = plan-shape string; all runs non-trivial (stall fault)",
+        rule: "reads through Response::read / read_vectored, text_reader() (ASCII payloads, and single-byte charsets with payloads full of byte-order-mark look-alike octets through text_reader_with) or write_to() (timestamping writer), over a plain connection or inside a TLS session (one plan in four; both back ends); uncompressed C01 plans whose peer goes silent forever (connection open) after a drawn prefix: after the blank line, after a complete chunk, inside a chunk, at the frame end, uniform; prefix delivered under a drawn segmentation with segments spread over simulated time; caller reads with buffers 1 B .. 1 MiB; read timeout 1 h so any wrong wait is visible as simulated time; distinct = plan-shape string; all runs non-trivial (stall fault)",
         quick_runs: 30000,
         matrix_cells: 0,
         thorough_runs: 50_000_000,
